@@ -195,13 +195,22 @@ Theorem tip_correct_upto16_partial : forall rows cols, 0 <= rows <= 16 -> 0 <= c
 (* partial: all shapes up to 16 x 16, storage holding the distinct entries 1..rows*cols (the algorithm only swaps
    cells, its control flow does not read them); the lifting to arbitrary contents and unbounded shapes is not proved *)
 Proof. exact tip_correct_upto16_distinct. Qed.
-Theorem tip_on_transposed_refuted :
+(* Tip on a transposed matrix (any header, whole storage or window): nothing is moved and the matrix becomes
+   exactly its former T() -- same header as T(), flag cleared, same elements (fix 2ffe99c; formerly F-TIP-T) *)
+Theorem tip_on_transposed_equals_former_T : forall real (H : heap) (m : mat), d_transposed m = true ->
+  mTip H m = ROk (H, DenseP.T m) /\
+  exists H' m', mTip H m = ROk (H', m') /\ H' = H /\ d_transposed m' = false /\
+    (d_rows m', d_cols m') = (d_cols m, d_rows m) /\
+    (forall i j, mAT real H' m' i j = mAT real H (k_T real m) i j) /\
+    read_all real H' m' = read_all real H (k_T real m).
+Proof. intros real H m E. split; [exact (tip_on_transposed_is_T H m E) | exact (tip_on_transposed_reads_T real H m E)]. Qed.
+Example tip_on_transposed_regression :
   let s := [1; 2; 3; 4; 5; 6] in
   let m := DenseP.T (new_mat 0 2 3) in
   wf 6 m /\
-  (H' <- (r <- mTip [s] m ;; ROk r) ;; read_all false (fst H') (snd H')) = ROk [1; 5; 4; 3; 2; 6] /\
+  (H' <- (r <- mTip [s] m ;; ROk r) ;; read_all false (fst H') (snd H')) = ROk [1; 2; 3; 4; 5; 6] /\
   read_all false [s] (DenseP.T m) = ROk [1; 2; 3; 4; 5; 6].
-Proof. exact tip_transposed_refuted. Qed.
+Proof. exact tip_transposed_regression. Qed.
 
 (* ---- sparse storage: T() of a whole matrix is correct; the defects of views are refuted by witnesses ---- *)
 Theorem sparse_T_whole_upto8_partial : forall rows cols, 0 <= rows <= 8 -> 0 <= cols <= 8 -> sparse_T_ok rows cols = true.
